@@ -275,6 +275,7 @@ class Console:
         self.apply_commands = False
         self.step_count: dict = {}
         self.outq: dict = {}
+        self.timers: list = []
         self.pumping: dict = {}
         self.on_deliver = None
         self.on_request = None
@@ -324,9 +325,18 @@ class Console:
                 self.pumping[tr.cid] = True
                 self.loop.call_soon(self._pump, tr)
         if delay > 0:
-            self.loop.call_later(delay, enqueue)
+            self.timers.append(self.loop.call_later(delay, enqueue))
         else:
             enqueue()
+
+    def cancel_all(self) -> None:
+        """Stop everything the console still has in flight (harness-owned timers)."""
+        self.silent = True
+        for h in self.timers:
+            h.cancel()
+        self.timers.clear()
+        for q in self.outq.values():
+            q.clear()
 
     def _pump(self, tr) -> None:
         q = self.outq.get(tr.cid, [])
@@ -378,15 +388,24 @@ class Console:
             self.silent = True
             return
         delay = spec.get("delay", 0.0)
-        for k, ex in enumerate(spec.get("before", ())):
-            f, what = self.extra_frame(ex)
-            self.feed(tr, f, delay=delay, label=f"extra:{what}")
-        frame = self.answer_frame(kind, payload, fr)
-        if frame is not None and not spec.get("skip"):
-            self.feed(tr, frame, delay=delay, cuts=spec.get("cuts", ()), label=f"answer:{kind}")
-        for ex in spec.get("after", ()):
-            f, what = self.extra_frame(ex)
-            self.feed(tr, f, delay=delay, label=f"extra:{what}")
+
+        def deliver():
+            # frames are built when they are sent: they carry the console's state of that instant
+            if self.silent and not spec.get("force"):
+                return
+            for ex in spec.get("before", ()):
+                f, what = self.extra_frame(ex)
+                self.feed(tr, f, label=f"extra:{what}")
+            frame = self.answer_frame(kind, payload, fr)
+            if frame is not None and not spec.get("skip"):
+                self.feed(tr, frame, cuts=spec.get("cuts", ()), label=f"answer:{kind}")
+            for ex in spec.get("after", ()):
+                f, what = self.extra_frame(ex)
+                self.feed(tr, f, label=f"extra:{what}")
+        if delay > 0:
+            self.timers.append(self.loop.call_later(delay, deliver))
+        else:
+            deliver()
 
     def extra_frame(self, ex):
         """ex = [kind, arg] -> (frame, kind actually produced)"""
